@@ -116,6 +116,7 @@ Proof.
   - destruct (coll_id s coll); [|exact Hcov]. destruct (filter _ _); exact Hcov.
   - apply min_exp_covers.
   - destruct (coll_id s coll); exact Hcov.
+  - destruct (coll_id s coll); exact Hcov.
   - exact Hcov.
 Qed.
 
